@@ -10,6 +10,9 @@ contracts around the pipeline.
     serialises the whole warning vector; --quiet empties the logs
  R4 warnings carry name and version of the emitting check
 General panic freedom of the pipeline is not decided.
+How: R2 by one scenario per check -- run_with_ghidra is specialised for a selection that contains exactly that check (the
+`modules.iter().any(..)` predicates are evaluated for its name) and the reached compute_* calls are compared with what the
+check unwraps; R3's sort rule is lib/sortprint (shared with C23).
 """
 import json
 import os
